@@ -105,7 +105,7 @@ pub fn drive_c15(args: &[String]) {
         }
         let mut vs = vec![];
         let n = s.size();
-        let mut variant = |how: &str, t: &PartialDSym| { let mut w = json!({"how": how}); match ptc_record(t) { Ok((r, _)) => { w["found"] = r["found"].clone(); w["sheets"] = r["sheets"].clone(); } Err(m) => { w["panic"] = json!(m); } } vs.push(w); };
+        let mut variant = |how: &str, t: &PartialDSym| { let mut w = json!({"how": how}); if how == "dual" { w["sym"] = dsym_json(t); } match ptc_record(t) { Ok((r, _)) => { w["found"] = r["found"].clone(); w["sheets"] = r["sheets"].clone(); } Err(m) => { w["panic"] = json!(m); } } vs.push(w); };
         if n >= 2 { variant("renumber", &renumber(s, &rand_perm(n, &mut rng))); }
         variant("dual", &dual(s));
         e["variants"] = json!(vs);
@@ -334,7 +334,7 @@ pub fn drive_c17(args: &[String]) {
         }
         let n = s.size();
         let mut vs = vec![];
-        let mut variant = |how: &str, t: &PartialDSym| -> Option<String> { let mut w = json!({"how": how}); let r = verdict(t); match &r { Ok((c, _)) => w["verdict"] = json!(c), Err(m) => w["panic"] = json!(m) } vs.push(w); r.ok().map(|x| x.0) };
+        let mut variant = |how: &str, t: &PartialDSym| -> Option<String> { let mut w = json!({"how": how}); if how == "dual" { w["sym"] = dsym_json(t); } let r = verdict(t); match &r { Ok((c, _)) => w["verdict"] = json!(c), Err(m) => w["panic"] = json!(m) } vs.push(w); r.ok().map(|x| x.0) };
         if !dull || rng.gen_bool(0.2) {
             if n >= 2 { variant("renumber", &renumber(&s, &rand_perm(n, &mut rng))); }
             variant("dual", &dual(&s));
